@@ -20,7 +20,7 @@ import time
 import common
 
 PROP = 'C16'
-STEP_TIMEOUT = 8.0          # seconds a released thread may run before it is declared hung
+STEP_TIMEOUT = 30.0         # seconds a released thread may run before it is declared hung
 
 _BODY = ('<?xml version="1.0" encoding="utf-8" ?>\n<CIM CIMVERSION="2.0" DTDVERSION="2.4">'
          '<MESSAGE ID="%d" PROTOCOLVERSION="1.4"><SIMPLEEXPREQ><EXPMETHODCALL NAME="ExportIndication">'
@@ -203,11 +203,11 @@ def patch_listener_module():
                 return realq.Queue.put(self, item, block, timeout)
             _park('put')
             w = _CUR['world']
-            while block and self.maxsize > 0 and self.qsize() >= self.maxsize:
-                _park('put_blocked')                    # a blocking put waits here
-            full = self.maxsize > 0 and self.qsize() >= self.maxsize
+            full = self.maxsize > 0 and self.qsize() >= self.maxsize      # what this put() call finds
             if w is not None:
                 w.put_seen.append((w.ind_of(item), full))
+            while block and self.maxsize > 0 and self.qsize() >= self.maxsize:
+                _park('put_blocked')                    # a blocking put waits here
             return realq.Queue.put(self, item, False)
 
         def empty(self):
@@ -324,6 +324,12 @@ class FakeServer:
     def server_close(self):
         _park('server_close')
         w = _CUR['world']
+        import pywbem._listener as L
+        joins = (not getattr(L.ThreadedHTTPServer, 'daemon_threads', False)) and \
+            getattr(L.ThreadedHTTPServer, 'block_on_close', True)
+        if not joins:
+            self.closed = True          # ThreadingMixIn would not wait for the handler threads
+            return
         if any(w.in_handler):
             w.notes.append('server_close() entered while a handler thread is alive')
             raise Abort()
@@ -501,7 +507,10 @@ class World:
                 c = s.ts.get('cb')
                 return c is None or c.done
             if t.tag == 'server_close':
-                return not any(self.in_handler)
+                import pywbem._listener as L
+                joins = (not getattr(L.ThreadedHTTPServer, 'daemon_threads', False)) and \
+                    getattr(L.ThreadedHTTPServer, 'block_on_close', True)
+                return not (joins and any(self.in_handler))
             return True
         if name == 'cb':
             return True
@@ -535,7 +544,7 @@ def run_real(cfg, labels, pcs, extra_calls=('start', 'stop')):
     w = World(cfg, calls, extra_calls)
     _CUR['sched'], _CUR['world'] = w.sched, w
     s = w.sched
-    res = {'diverged': None, 'hang': None, 'steps': 0}
+    res = {'diverged': None, 'hang': None, 'steps': 0, 'livelock': None}
     try:
         w.start_threads()
         i = 0
@@ -574,9 +583,15 @@ def run_real(cfg, labels, pcs, extra_calls=('start', 'stop')):
             # free-running completion: remaining API calls of the schedule + the restart probe
             order = ['main', 'cb'] + ['s%d' % j for j in range(w.n)]
             turn = 0
-            for _ in range(4000):
+            seen = {}
+            for _ in range(1500):
                 en = [nm for nm in order if w.enabled(nm)]
                 if not en:
+                    break
+                key = (w.vector(), len(w.log), len(w.outcomes), sum(len(r) for r in w.responses))
+                seen[key] = seen.get(key, 0) + 1
+                if seen[key] > 8:          # polling loops going round without any progress: livelock
+                    res['livelock'] = key[0]
                     break
                 nm = en[turn % len(en)]
                 turn += 1
@@ -625,9 +640,10 @@ def oracle(cfg, obs):
     if obs['hang']:
         out.append(({'kind': 'hang', 'where': obs['hang']}, 'a released thread never reached a scheduling point'))
     elif len(obs['outcomes']) < obs['n_calls']:
-        out.append(({'kind': 'api-call-never-returns', 'call': obs['main_tag']},
-                    'main thread is blocked forever at %s with every other thread ended or blocked; '
-                    'calls completed: %d of %d' % (obs['main_tag'], len(obs['outcomes']), obs['n_calls'])))
+        out.append(({'kind': 'api-call-never-returns', 'blocked_at': obs['main_tag']},
+                    'main thread never gets past %s (%s); calls completed: %d of %d' % (
+                        obs['main_tag'], 'polling without progress' if obs.get('livelock') else
+                        'every other thread has ended or is blocked', len(obs['outcomes']), obs['n_calls'])))
     for idx, ((call, exc), snap) in enumerate(zip(obs['outcomes'], obs['after_call'])):
         if call == 'stop' and exc is None:
             if snap['cb_alive']:
@@ -736,16 +752,17 @@ def gen_requests(run):
                                    'pb': pb, 'limit': limit, 'skip': skip}))
     c111 = {'n': 1, 'maxQ': 0, 'ncb': 1}
     enum(c111, 1, 1, 2, 400)                                           # all 192
-    enum({'n': 1, 'maxQ': 0, 'ncb': 2}, 2, 2, 2, 700 if thorough else 250, 0 if thorough else rng.randrange(300))
-    enum({'n': 1, 'maxQ': 1, 'ncb': 1}, 2, 1, 2, 400 if thorough else 150, 0 if thorough else rng.randrange(100))
-    enum({'n': 2, 'maxQ': 0, 'ncb': 1}, 1, 1, 2, 1700 if thorough else 200, 0 if thorough else rng.randrange(1400))
-    enum({'n': 2, 'maxQ': 1, 'ncb': 1}, 1, 1, 2, 1700 if thorough else 150, 0 if thorough else rng.randrange(1400))
+    enum(c111, 1, 1, 3, 1400)                                          # all 1356
+    enum({'n': 1, 'maxQ': 0, 'ncb': 2}, 2, 2, 2, 2000 if thorough else 400, 0 if thorough else rng.randrange(300))
+    enum({'n': 1, 'maxQ': 1, 'ncb': 1}, 2, 1, 2, 2000 if thorough else 300, 0 if thorough else rng.randrange(100))
+    enum({'n': 2, 'maxQ': 0, 'ncb': 1}, 1, 1, 2, 1700 if thorough else 400, 0 if thorough else rng.randrange(1200))
+    enum({'n': 2, 'maxQ': 1, 'ncb': 1}, 1, 1, 2, 1700 if thorough else 300, 0 if thorough else rng.randrange(1200))
     if thorough:
-        enum(c111, 1, 1, 3, 1400)
-        enum({'n': 1, 'maxQ': 0, 'ncb': 1}, 2, 2, 3, 6000, rng.randrange(3000))
-        enum({'n': 2, 'maxQ': 0, 'ncb': 2}, 1, 1, 3, 6000, rng.randrange(20000))
-        enum({'n': 3, 'maxQ': 2, 'ncb': 1}, 1, 1, 2, 6000, rng.randrange(20000))
-    nwalk = 30000 if thorough else 700
+        enum({'n': 1, 'maxQ': 0, 'ncb': 1}, 2, 2, 3, 8000, rng.randrange(3000))
+        enum({'n': 2, 'maxQ': 0, 'ncb': 2}, 1, 1, 3, 8000, rng.randrange(20000))
+        enum({'n': 2, 'maxQ': 1, 'ncb': 1}, 2, 1, 3, 8000, rng.randrange(20000))
+        enum({'n': 3, 'maxQ': 2, 'ncb': 1}, 1, 1, 2, 8000, rng.randrange(20000))
+    nwalk = 60000 if thorough else 2500
     for _ in range(nwalk):
         cfg = {'n': rng.choice([1, 2, 2, 3, 3]), 'maxQ': rng.choice([0, 0, 1, 2, 3]), 'ncb': rng.choice([1, 1, 2])}
         if thorough and rng.random() < 0.1:
@@ -786,6 +803,19 @@ def schedules(run):
     return runs
 
 
+def shrink_case(cfg, labels, kind):
+    """smaller label list (followed as far as the real threads allow, then free-running) that still
+    shows a violation of the same kind; None if the violation needs the exact model positions"""
+    def fails(ls):
+        try:
+            return any(sig['kind'] == kind for sig, _ in oracle(cfg, run_real(cfg, ls, None)))
+        except Exception:
+            return False
+    if not fails(labels):
+        return None
+    return common.shrink_list(labels, fails, max_rounds=60)
+
+
 def judge(run, cfg, labels, pcs, final, obs, origin):
     case = {'cfg': cfg, 'labels': labels}
     if 'crash' in obs:
@@ -800,9 +830,18 @@ def judge(run, cfg, labels, pcs, final, obs, origin):
         run.disagree(case, mv, rv, 'final observation')
     elif obs['notes']:
         run.disagree(case, None, obs['notes'], 'harness notes')
+    seen_kinds = run.extra.setdefault('_shrunk', {})
     for sig, detail in oracle(cfg, obs):
-        run.violate(sig, case, {'detail': detail, 'outcomes': obs['outcomes'], 'log': obs['log'],
-                                'responses': obs['responses'], 'diverged': obs['diverged']})
+        vcase = {'cfg': cfg, 'labels': labels, 'pcs': pcs}
+        key = json.dumps(sig, sort_keys=True)
+        if key not in seen_kinds and len(seen_kinds) < 12:
+            # first violation of this signature: try to make the replay small (real code only)
+            small = shrink_case(cfg, labels, sig['kind'])
+            seen_kinds[key] = small is not None
+            if small is not None:
+                vcase = {'cfg': cfg, 'labels': small, 'pcs': None, 'shrunk_from': len(labels)}
+        run.violate(sig, vcase, {'detail': detail, 'outcomes': obs['outcomes'], 'log': obs['log'],
+                                 'responses': obs['responses'], 'diverged': obs['diverged']})
 
 
 def stats(run, cfg, labels, final, obs, origin):
@@ -856,6 +895,7 @@ def run(run):
         '_queue_full log flag, BaseException (non-Exception) raised by a callback',
     ]
     scheds = schedules(run)
+    run.extra.pop('_shrunk', None)
     items = [(cfg, labels, pcs) for (cfg, labels, pcs, final, origin) in scheds]
     t0 = time.time()
     results = common.pmap(work, items, chunksize=16)
@@ -967,21 +1007,105 @@ SMOKE = [  # (callback seconds, indications, seconds before stop, maxq, ncb)
     (0.3, 1, 0.05, 0, 1),      # stop() while the only indication is inside the callback (the original defect)
     (0.0, 5, 0.0, 0, 2),
     (0.05, 6, 0.0, 2, 1),      # bounded queue: some refused
+    ('failed-start', 0, 0.0, 0, 1),   # start() failing after the HTTP server thread was started
     (0.0, 0, 0.0, 0, 1),       # idle stop
 ]
 
 
+def smoke_failed_start():
+    """start() that fails on the HTTPS side after the HTTP server thread was started: the documented
+    behaviour is that callback thread and listener threads are cleaned up again"""
+    import pywbem
+    quiet_logging()
+    p1, p2 = free_port(), free_port()
+    li = pywbem.WBEMListener('127.0.0.1', http_port=p1, https_port=p2,
+                             certfile='/nonexistent/cert.pem', keyfile='/nonexistent/key.pem')
+    before = set(threading.enumerate())
+    res = {'responses': [], 'log': [], 'outcomes': []}
+    try:
+        li.start()
+        res['outcomes'].append(('start', None))
+    except pywbem.ListenerError:
+        res['outcomes'].append(('start', None))          # documented exception of start()
+    except Exception as e:                               # noqa
+        res['outcomes'].append(('start', type(e).__name__))
+    time.sleep(0.05)
+    res['left_threads'] = sorted(t.name for t in set(threading.enumerate()) - before if t.is_alive())
+    free = True
+    for p in (p1, p2):
+        s = socket.socket()
+        s.settimeout(2)
+        try:
+            s.connect(('127.0.0.1', p))
+            free = False
+        except OSError:
+            pass
+        finally:
+            s.close()
+        s = socket.socket()                              # nobody connected: a plain bind must work
+        try:
+            s.bind(('127.0.0.1', p))
+        except OSError:
+            free = False
+        finally:
+            s.close()
+    res['port_free'] = free
+    try:
+        li.stop()
+        res['outcomes'].append(('stop', None))
+    except Exception as e:                               # noqa
+        res['outcomes'].append(('stop', type(e).__name__))
+    return res
+
+
+def _smoke_child(conn, args):
+    try:
+        if args[0] == 'failed-start':
+            conn.send(('ok', smoke_failed_start()))
+        else:
+            conn.send(('ok', smoke_once(*args)))
+    except BaseException as e:                                    # noqa
+        conn.send(('exc', repr(e)))
+    finally:
+        conn.close()
+        os._exit(0)
+
+
+def smoke_guarded(args, timeout=60.0):
+    """run one loopback scenario in a forked child (a listener whose stop() never returns, or that leaves
+    non-daemon threads behind, must not hang the check); ('hang', None) on timeout"""
+    import multiprocessing as mp
+    ctx = mp.get_context('fork')
+    a, b = ctx.Pipe(duplex=False)
+    p = ctx.Process(target=_smoke_child, args=(b, args))
+    p.start()
+    b.close()
+    try:
+        if a.poll(timeout):
+            return a.recv()
+        return ('hang', None)
+    except EOFError:
+        return ('exc', 'child died')
+    finally:
+        if p.is_alive():
+            p.kill()
+        p.join(5)
+
+
 def smoke(run):
     t0 = time.time()
-    for i, (d, n, w, mq, ncb) in enumerate(SMOKE if run.thorough else SMOKE[:3]):
+    for i, (d, n, w, mq, ncb) in enumerate(SMOKE if run.thorough else SMOKE[:4]):
         case = {'loopback': [d, n, w, mq, ncb]}
-        try:
-            res = smoke_once(d, n, w, mq, ncb)
-        except Exception as e:                                    # noqa
-            run.notes.append('loopback scenario %d not run: %r' % (i, e))
+        kind, res = smoke_guarded((d, n, w, mq, ncb))
+        if kind == 'exc':
+            run.notes.append('loopback scenario %d not run: %s' % (i, res))
             continue
         run.case(case, nontrivial=True)
         run.count('loopback')
+        if kind == 'hang':
+            run.violate({'kind': 'api-call-never-returns', 'blocked_at': 'loopback'}, case,
+                        {'detail': 'start()/stop() sequence on loopback did not finish within 60 s'})
+            continue
         for sig, detail in smoke_check(res, ncb):
             run.violate(sig, case, {'detail': detail, 'outcomes': res['outcomes'], 'responses': res['responses'],
                                     'log': res['log']})
@@ -1028,13 +1152,15 @@ def replay(payload):
     case = payload['case']
     if 'loopback' in case:
         d, n, w, mq, ncb = case['loopback']
-        res = smoke_once(d, n, w, mq, ncb)
+        kind, res = smoke_guarded((d, n, w, mq, ncb))
+        if kind == 'hang':
+            return False, 'C16 violated: start()/stop() sequence on loopback did not finish within 60 s'
+        if kind == 'exc':
+            return False, 'loopback scenario could not be run: %s' % res
         bad = smoke_check(res, ncb)
     else:
-        obs = run_real(case['cfg'], case['labels'], None)
+        obs = run_real(case['cfg'], case['labels'], case.get('pcs'))
         bad = oracle(case['cfg'], obs)
-        if obs.get('diverged'):
-            bad = bad or []
     if bad:
         return False, 'C16 violated: ' + '; '.join('%s (%s)' % (json.dumps(s, sort_keys=True), d) for s, d in bad[:4])
     return True, 'C16 holds on this schedule'
